@@ -132,7 +132,7 @@ Proof.
     assert (Hu : wft' u) by (apply Hin, Huse; left; reflexivity).
     rewrite (termlist_copy_id ctx Hctx).
     rewrite (t_remove_m u ctx) by (apply existsb_in_refl; [apply Hu|apply Huse; left; reflexivity]).
-    rewrite bind_ret_l, get_coefficient_eq, bind_ret_l, (isolate_variable_eq' u v Hu).
+    rewrite bind_ret_l, get_coefficient_eq, bind_ret_l, ?bind_if_ret, (isolate_variable_eq' u v Hu).
     destruct (term_isolate_variable u v) as [iso|e] eqn:EI; [|reflexivity].
     cbn [bind].
     assert (Hwi : wft iso) by (eapply wft_isolate_variable; [apply Hu|exact EI]).
